@@ -138,6 +138,17 @@ def _check(ctx: Ctx) -> None:
                         and any(a.value.value is False and a.lineno < n.lineno and not any(isinstance(x, ast.While) for x in ancestors(a) if x is not loop and x in list(ast.walk(loop)))
                                 for a in asg):
                     relays.add(w_)
+        # the other place for the flag: next to the two loops, under `low test or high test` -- true exactly when one of them runs
+        joint = None
+        for g in ast.walk(loop):
+            if isinstance(g, ast.If) and isinstance(g.test, ast.BoolOp) and isinstance(g.test.op, ast.Or) and len(g.test.values) == 2 and not g.orelse:
+                ws = [x for x in g.body if isinstance(x, ast.While)]
+                if len(ws) == 2 and sorted(ast.dump(x.test) for x in ws) == sorted(ast.dump(v) for v in g.test.values):
+                    first = min(g.body.index(x) for x in ws)
+                    before = [y for st_ in g.body[:first] for y in ast.walk(st_)]
+                    if not any(isinstance(y, ast.Attribute) and y.attr == "note" and isinstance(y.ctx, ast.Store) for y in before) \
+                            and not any(isinstance(y, ast.Call) for y in before):
+                        joint = g
         kinds = {}
         for w in whiles:
             tst = w.test
@@ -161,6 +172,9 @@ def _check(ctx: Ctx) -> None:
                           message=f"`{short(w)}`", file=fi.file, node=w)
                 sets = [n for n in ast.walk(w) if isinstance(n, ast.Assign) and any(isinstance(t, ast.Name) and (t.id == flag or t.id in relays) for t in n.targets)
                         and isinstance(n.value, ast.Constant) and n.value.value is True]
+                if not sets and joint is not None and w in joint.body:
+                    sets = [n for n in joint.body if isinstance(n, ast.Assign) and any(isinstance(t, ast.Name) and t.id == flag for t in n.targets)
+                            and isinstance(n.value, ast.Constant) and n.value.value is True]
                 if not sets and accumulating:
                     ctx.undetermined("WRAP", f"{FN}: {k} wrap loop sets the flag",
                                      f"the flag is accumulated by `{short(accumulating[0])}` instead of being set in the loop: idiom not judged")
@@ -182,6 +196,8 @@ def _check(ctx: Ctx) -> None:
             if isinstance(n, ast.Assign) and any(isinstance(t, ast.Name) and t.id == flag for t in n.targets):
                 inside = any(isinstance(a, ast.While) and kinds.get(id(a)) in ("low", "high") for a in ancestors(n))
                 par = getattr(n, "_parent", None)
+                if not inside and joint is not None and par is joint and n in joint.body and all(kinds.get(id(x)) in ("low", "high") for x in joint.body if isinstance(x, ast.While)):
+                    inside = True
                 if not inside and isinstance(par, ast.If) and isinstance(par.test, ast.Name) and par.test.id in relays:
                     # set through the relay: the relay itself becomes True only inside the wrap loops
                     inside = all(any(isinstance(a, ast.While) and kinds.get(id(a)) in ("low", "high") for a in ancestors(x))
